@@ -149,7 +149,7 @@ def on_input(p, r, exc, acc):
 
 
 # ------------------------------------------------------------------ output side
-OUT = [None, "ascii", "latin-1", "utf-8"]
+OUT = [None, "ascii", "latin-1", "utf-8", "utf-16-le", "utf-16", "utf-16-be", "utf-32-le"]
 
 
 def h_output(n):
@@ -188,8 +188,25 @@ def on_output(p, r, exc, acc):
             if st == "fails":
                 acc.candidate(kind="render-text", input=cfg(mod), detail="")
     else:
-        lim = {"ascii": 128, "latin-1": 256, "utf-8": None}[oe]
-        if lim is not None:
+        lim = {"ascii": 128, "latin-1": 256}.get(oe)
+        if oe.startswith("utf-16") or oe.startswith("utf-32"):
+            surr = z3.Or([z3.And(cv(c) >= 0xD800, cv(c) <= 0xDFFF) for c in s.items if not isinstance(c, str)] + [z3.BoolVal(False)])
+            if r["exc"] is not None:
+                st, mod = p.vc(surr)
+                if st == "fails":
+                    acc.candidate(kind="render-raises-on-encodable", input=cfg(mod), detail=str(r["exc"])[:100])
+            elif not isinstance(r["res"], (bytes, SymBytes)):
+                acc.candidate(kind="render-type", input=cfg(m), detail="expected bytes, got %s" % type(r["res"]).__name__)
+            else:
+                items = r["res"].items if isinstance(r["res"], SymBytes) else list(r["res"])
+                cps = wide_decode(items, oe)
+                if cps is None or len(cps) != len(full.items):
+                    acc.candidate(kind="render-bytes", input=cfg(m), detail="not the %s encoding of the text (one byte-order mark at most, at the start)" % oe)
+                else:
+                    st, mod = p.vc(z3.And([z3.Not(surr)] + [a == cv(b) for a, b in zip(cps, full.items)]))
+                    if st == "fails":
+                        acc.candidate(kind="render-bytes", input=cfg(mod), detail="")
+        elif lim is not None:
             enc_ok = z3.And([cv(c) < lim for c in s.items]) if s.items else z3.BoolVal(True)
             if r["exc"] is not None:
                 st, mod = p.vc(z3.Not(enc_ok))
@@ -228,7 +245,7 @@ def on_output(p, r, exc, acc):
 
 
 MOD_ENCS = ["utf-8", "latin-1", "cp1251", "koi8-r", "ascii"]
-MOD_STYLES = ["comment", "input_encoding", "both"]
+MOD_STYLES = ["comment", "input_encoding", "both", "conflicting"]
 
 
 def h_modfile(p):
@@ -247,6 +264,49 @@ def on_modfile(p, r, exc, acc):
             acc.candidate(kind="module-file-roundtrip", input=dict(encoding=r["enc"], declared_by=r["style"], stage=stage),
                           detail="rendered %r expected %r" % (got, want))
     acc.sample(dict(encoding=r["enc"], declared_by=r["style"]))
+
+
+def wide_decode(byte_items, enc):
+    """reference UTF-16 / UTF-32 decoder on byte terms -> code point terms (forks on surrogate classes); None = malformed"""
+    import sys as _sys
+    p = core.cur()
+    f = lambda e: e if isinstance(e, bool) else p.fork(e)
+    e = enc.lower().replace("-", "")
+    wide = e.startswith("utf32")
+    order = e[-2:] if e[-2:] in ("le", "be") else ("le" if _sys.byteorder == "little" else "be")
+    n = 4 if wide else 2
+    bs = list(byte_items)
+    if len(bs) % n:
+        return None
+    units = []
+    for i in range(0, len(bs), n):
+        ds = bs[i:i + n] if order == "be" else bs[i:i + n][::-1]
+        u = 0
+        for d in ds:
+            u = u * 256 + d
+        units.append(u)
+    if e in ("utf16", "utf32"):
+        if not units or not f(units[0] == 0xFEFF):
+            return None
+        units = units[1:]
+    if wide:
+        return units
+    cps = []
+    i = 0
+    while i < len(units):
+        u = units[i]
+        if f(z3.And(u >= 0xD800, u <= 0xDBFF) if not isinstance(u, int) else 0xD800 <= u <= 0xDBFF):
+            if i + 1 >= len(units):
+                return None
+            l = units[i + 1]
+            if not f(z3.And(l >= 0xDC00, l <= 0xDFFF) if not isinstance(l, int) else 0xDC00 <= l <= 0xDFFF):
+                return None
+            cps.append(0x10000 + (u - 0xD800) * 1024 + (l - 0xDC00))
+            i += 2
+        else:
+            cps.append(u)
+            i += 1
+    return cps
 
 
 def C10_utf8(byte_items):
@@ -359,7 +419,7 @@ def run(check, tier):
         "symbolic bytes are ASCII, so decoding them is the identity in every ASCII-compatible codec; concrete byte runs are decoded by the real codec",
         "a coding comment without a line terminator, and a BOM with a comment naming an alias of utf-8, are not asserted",
         "output side: real Template('A${x}B', default_filters=[]) rendered with a symbolic str over all Unicode scalar values; "
-        "str.encode for ascii/latin-1/utf-8 is the engine's arithmetic model, checked against an independent reference decoder and, per path "
+        "str.encode for ascii/latin-1/utf-8/utf-16(-le,-be)/utf-32-le is the engine's arithmetic model, checked against an independent reference decoder and, per path "
         "witness, against the real codecs")
     check.not_claimed("codec tables beyond utf-8/latin-1/ascii/cp1251", "module-file generation and reload in the declared encoding (file I/O + import)",
                       "encoding_errors other than strict (the htmlentityreplace handler is C10's subject)")
